@@ -25,8 +25,89 @@ def gen(ctx):
                 convs.append(json.loads(l))
         if rc != 0 or not convs:
             ctx.broken.append("kafka: the independent encoder failed: " + out[-400:])
+        convs += wide_varint_variants(convs)
         ctx._kafka_gen = convs
     return ctx._kafka_gen
+
+
+def _zigzag_varint(v):
+    u = ((v << 1) ^ (v >> 63)) & (2 ** 64 - 1)
+    out = bytearray()
+    while True:
+        b = u & 0x7f
+        u >>= 7
+        if u:
+            out.append(b | 0x80)
+        else:
+            out.append(b)
+            return bytes(out)
+
+
+def wide_varint_variants(convs):
+    """The independent encoder cannot produce record timestamps far enough apart to need a nine- or
+    ten-byte varint; such records are made here from one of its single-record Produce requests by
+    re-encoding the timestampDelta and adding the size difference to the enclosing length fields
+    (message size, record-set size, batch length, record length).  The dissector does not check the
+    batch CRC."""
+    out = []
+    base = None
+    for x in convs:
+        ex = x["exch"][0] if x.get("exch") else None
+        if not ex or ex["name"] != "Produce" or ex["ver"] < 3 or not ex.get("supported", True):
+            continue
+        toks = ex["req"]
+        recs = [t for t in toks if t["p"].endswith("RecordSet.records") and t["k"] == "n"]
+        if len(recs) == 1 and recs[0]["v"] == 1 and sum(1 for t in toks if t["p"].endswith(".RecordSet.size")) == 1:
+            ln = [t for t in toks if t["p"].endswith("records[].length")][0]
+            if 0 <= ln["v"] <= 50 and ln["w"] == 1:
+                base = x
+                break
+    if base is None:
+        return out
+    for k, val in enumerate([2 ** 62, -2 ** 62 - 1, 2 ** 63 - 1, -2 ** 63, 2 ** 55, -2 ** 56 - 1]):
+        x = json.loads(json.dumps(base))
+        ex = x["exch"][0]
+        at = x["req_at"][0]
+        data = bytearray.fromhex(x["client"])
+        toks = ex["req"]
+        td = [t for t in toks if t["p"].endswith("records[].timestampDelta")][0]
+        new = _zigzag_varint(val)
+        delta = len(new) - td["w"]
+        pos = at + td["o"]
+        data[pos:pos + td["w"]] = new
+
+        def bump_fixed(tok, width):
+            o = at + tok["o"]
+            v = int.from_bytes(data[o:o + width], "big", signed=True) + delta
+            data[o:o + width] = v.to_bytes(width, "big", signed=True)
+            tok["v"] = v
+        for t in toks:
+            if t["p"].endswith(".RecordSet.size") or t["p"].endswith(".RecordSet.batchLength"):
+                bump_fixed(t, 4)
+            elif t["p"].endswith("records[].length"):
+                o = at + t["o"]
+                nv = t["v"] + delta
+                enc = _zigzag_varint(nv)
+                if len(enc) != t["w"]:
+                    return out
+                data[o:o + t["w"]] = enc
+                t["v"] = nv
+        size = int.from_bytes(data[at:at + 4], "big") + delta
+        data[at:at + 4] = size.to_bytes(4, "big")
+        ex["req_size"] = ex.get("req_size", 0) + delta
+        td["v"], td["w"] = val, len(new)
+        if "l" in td:
+            td["l"] = len(new)
+        for t in toks:
+            if t["o"] > td["o"]:
+                t["o"] += delta
+        if "req_hex" in ex:
+            ex["req_hex"] = bytes(data[at:at + 4 + size]).hex()
+        x["req_at"] = [x["req_at"][0]] + [a + delta for a in x["req_at"][1:]]
+        x["client"] = bytes(data).hex()
+        x["name"] = "%s-widevarint-%d" % (x.get("name", "Produce"), k)
+        out.append(x)
+    return out
 
 
 def case(c, s, cc=(), sc=(), tail=0, order="cs"):
